@@ -1,7 +1,7 @@
 SPECIFICATION Spec
 CONSTANTS
   OutOps = {"authnDoc", "logoutReqDoc", "logoutRespDoc", "redirectAuthn", "redirectLogout", "postAuthn", "postLogoutResp", "metadata"}
-  InOps = {"validateRaw", "validateDeflate", "validateEnc", "infoDeflate", "predecodeDeflate", "logoutRespDeflate", "logoutReq", "refusedDeflate"}
+  InOps = {"validateRaw", "validateDeflate", "validateEnc", "infoDeflate", "predecodeDeflate", "logoutRespDeflate", "logoutReq", "refusedDeflate", "twoBad"}
   ScOps = {"authnDoc", "logoutReqDoc", "logoutRespDoc", "redirectAuthn", "redirectLogout"}
   Gates = {"sc.rlock", "sc.lock"}
   MaxMix = 2
